@@ -1,6 +1,7 @@
 package drivers
 
 import (
+	"bytes"
 	"encoding/binary"
 	"encoding/json"
 	"fmt"
@@ -10,6 +11,7 @@ import (
 	"os"
 	"path/filepath"
 	"runtime"
+	"sort"
 	"strings"
 	"sync"
 	"sync/atomic"
@@ -1281,6 +1283,72 @@ type metaInput struct {
 	Merge             bool       `json:"merge,omitempty"`
 	OutsideListing    string     `json:"outsideListing,omitempty"`    // "" | live | dangling: what the destination symlink named like the listing points at
 	ListingFaultLimit int        `json:"listingFaultLimit,omitempty"` // > 0: the listing write-fault scenario with this file-size limit
+	// Model: the case was enumerated by TLC from spec/MetaStackMC.tla; what the model's run forwards and which ids it records
+	Model *metaModel `json:"model,omitempty"`
+}
+
+type metaModel struct {
+	Name string   `json:"name"`
+	Fwd  []string `json:"fwd"`
+	Ids  []int    `json:"ids"`
+}
+
+// metaModelCases reads the (stream, selector) cases TLC wrote for MetaStackMC and turns them into transfers: "L" is the
+// listing file's own name, files carry 1-3 bytes (so that every selected one is requested).
+func metaModelCases(gen string) ([]metaInput, error) {
+	files, _ := filepath.Glob(filepath.Join(gen, "metacase_*.ndjson"))
+	sort.Strings(files)
+	name := func(comps []string) string {
+		out := make([]string, len(comps))
+		for i, c := range comps {
+			if c == "L" {
+				c = listingName
+			}
+			out[i] = c
+		}
+		return strings.Join(out, "/")
+	}
+	var res []metaInput
+	for _, f := range files {
+		err := readLines(f, func(ln []byte) error {
+			var mc struct {
+				Name   string `json:"name"`
+				Stream []struct {
+					P   []string `json:"p"`
+					Dir bool     `json:"dir"`
+				} `json:"stream"`
+				Sel [][]string `json:"sel"`
+				Fwd [][]string `json:"fwd"`
+				Ids []int      `json:"ids"`
+			}
+			if err := json.Unmarshal(ln, &mc); err != nil {
+				return err
+			}
+			in := metaInput{CapS: 4, CapR: 4, Origin: "metaModel/" + mc.Name, Model: &metaModel{Name: mc.Name, Ids: mc.Ids}}
+			for k, e := range mc.Stream {
+				p := name(e.P)
+				if e.Dir {
+					in.Src = append(in.Src, model.Entry{Path: p, Type: "dir", Perm: 0755, Mtime: uniqueMtime()})
+				} else {
+					data := bytes.Repeat([]byte{byte('a' + k)}, 1+k%3)
+					in.Src = append(in.Src, model.Entry{Path: p, Type: "file", Perm: 0644, Mtime: uniqueMtime(), Data: data, Size: int64(len(data)), Content: model.ContentID(data)})
+				}
+			}
+			in.Src.Sort()
+			for _, q := range mc.Sel {
+				in.Selected = append(in.Selected, name(q))
+			}
+			for _, q := range mc.Fwd {
+				in.Model.Fwd = append(in.Model.Fwd, name(q))
+			}
+			res = append(res, in)
+			return nil
+		})
+		if err != nil {
+			return nil, err
+		}
+	}
+	return res, nil
 }
 
 const listingName = ".fsutil-metadata"
@@ -1356,6 +1424,17 @@ func runMeta(c *Ctx, caseNo int, in metaInput) ([]vt.Ev, *SyncResult, error) {
 	o := SyncOpts{Mode: mode, Differ: "metadata", CapS2R: in.CapS, CapR2S: in.CapR,
 		MetadataOnly: func(p string, st *types.Stat) bool { return sel[filepath.ToSlash(p)] },
 		Extra:        vt.Ev{"input": vt.Opaque(in), "origin": in.Origin, "selected": selP}}
+	if in.Model != nil {
+		fwd := [][][]int{}
+		for _, p := range in.Model.Fwd {
+			fwd = append(fwd, vt.P(p))
+		}
+		ids := in.Model.Ids
+		if ids == nil {
+			ids = []int{}
+		}
+		o.Extra["metaModel"] = vt.Ev{"fwd": fwd, "ids": ids}
+	}
 	if in.Puppet {
 		view := in.Src.Clone()
 		view.Sort()
@@ -1475,6 +1554,25 @@ func syncMeta(c *Ctx) error {
 			c.Stats.Case(vt.Opaque(in), true)
 			c.Stats.Count("origin:"+in.Origin, 1)
 		}
+	}
+	// the (stream, selector) cases TLC enumerated from spec/MetaStackMC.tla, with what the model's run forwards and records
+	if gen := os.Getenv("VERIF_GEN_DIR"); gen != "" && c.What != "metasmall" {
+		mcs, err := metaModelCases(gen)
+		if err != nil {
+			return err
+		}
+		for _, in := range mcs {
+			evs, _, err := runMeta(c, c.NextCase(), in)
+			if err != nil {
+				return err
+			}
+			for _, e := range evs {
+				c.Out.Emit(e)
+			}
+			c.Stats.Case(vt.Opaque(in), true)
+			c.Stats.Count("origin:metaModel", 1)
+		}
+		c.Stats.Note(fmt.Sprintf("%d (stream, selector) cases enumerated by TLC from MetaStackMC", len(mcs)))
 	}
 	// a write fault on the listing itself: the receiving process may not write files larger than the limit
 	{
